@@ -1413,3 +1413,13 @@ Proof.
   rewrite !(find_percentile_correct (pp_mutate d0) _ Hne1) by (try lia; exact Hb1).
   rewrite Hs1. reflexivity.
 Qed.
+
+(* the tree requested for trace T (the records with trace id T) contains spans of T only *)
+Theorem tree_only_own_trace : forall order recs T t,
+  gantt_view order (filter (of_trace T) recs) = Some t ->
+  Forall (fun n => sp_trace (g_span n) = T) (tree_nodes t).
+Proof.
+  intros order recs T t H. apply Forall_forall. intros n Hn.
+  apply (tree_nodes_from_records _ _ _ _ H) in Hn. apply filter_In in Hn as [_ Hn].
+  unfold of_trace in Hn. apply str_eqb_eq in Hn. exact Hn.
+Qed.
